@@ -2,7 +2,7 @@
    arguments no longer overwrite pending arguments"): argument k of a call is compiled under the
    caller's compile-time names WITHOUT reserving the k (+1 for a method receiver) slots that are
    already pushed when it runs.  This file is a copy of the GenStep section of Sem/Sim.v with exactly
-   that one line changed in p_args; it is used only by exec_sim_pinned_refuted (Props/C01_core.v),
+   that one line changed in p_args; it is used only by exec_sim_pinned_refuted (Props/C01.v),
    which shows that theorem exec_sim discriminates between the two disciplines.  Definitions only. *)
 From P2 Require Import Base.Prelude Sem.Num Sem.Syntax Sem.Ops Sem.Lib Sem.Ref Sem.Gen Sem.Sim.
 
